@@ -697,12 +697,21 @@ func CreateUpdateMsgFromPaths(pathList []*Path, options ...*bgp.MarshallingOptio
 	// Since sendMessageloop coalesces outgoing BGP UPDATE messages and
 	// the packers emit withdrawals before announcements, we should keep only the
 	// last action for each NLRI/path-id within one packing pass.
+	// Without ADD-PATH the session carries no path identifier, so every path to
+	// a prefix shares one key on the wire whatever its local identifier is.
+	key := func(path *Path) PathLocalKey {
+		k := path.GetLocalKey()
+		if !bgp.IsAddPathEnabled(false, path.GetFamily(), options) {
+			k.Id = 0
+		}
+		return k
+	}
 	last := make(map[PathLocalKey]*Path, len(pathList))
 	for _, path := range pathList {
 		if path == nil || path.IsEOR() {
 			continue
 		}
-		last[path.GetLocalKey()] = path
+		last[key(path)] = path
 	}
 
 	m := make(map[bgp.Family]packerInterface)
@@ -722,7 +731,7 @@ func CreateUpdateMsgFromPaths(pathList []*Path, options ...*bgp.MarshallingOptio
 			add(path)
 			continue
 		}
-		if last[path.GetLocalKey()] != path {
+		if last[key(path)] != path {
 			continue
 		}
 		add(path)
